@@ -26,7 +26,7 @@ ASSUMPTIONS = ["A2 graph names are the concrete terms <urn:g1>, _:b1 and the dat
                "an unknown name <urn:unknown> is used for the restricted-query observation"]
 NAMES = {"d": DATASET_DEFAULT_GRAPH_ID, "g1": URIRef("urn:g1"), "b1": BNode("b1")}
 UNKNOWN = URIRef("urn:unknown")
-QBITS = ["000", "011", "111"]
+QBITS = ["000", "001", "010", "011", "100", "101", "110", "111"]
 
 
 def _t(F, args, i):
@@ -80,9 +80,12 @@ def body_ds(desc, F, *args):
             exists[gn] = "yes"
         elif kind == "rmgraph":
             gn = op[1]
-            ds.remove_graph(NAMES[gn])
-            model[gn] = []
-            exists[gn] = "yes" if gn == "d" else "no"
+            if gn == "none":
+                ds.remove_graph(None)  # allowed by the signature; names no graph of the dataset: nothing may change
+            else:
+                ds.remove_graph(NAMES[gn])
+                model[gn] = []
+                exists[gn] = "yes" if gn == "d" else "no"
         else:
             raise AssertionError(kind)
     q = _t(F, args, i)
@@ -211,7 +214,7 @@ def _nsym(ops):
 def all_kinds(bits):
     ks = [("addq", g) for g in NAMES] + [("addv", g) for g in NAMES]
     ks += [("rmq", b, g) for b in bits for g in NAMES] + [("rmall", b) for b in bits]
-    ks += [("graph", g) for g in ("g1", "b1")] + [("rmgraph", g) for g in NAMES]
+    ks += [("graph", g) for g in ("g1", "b1")] + [("rmgraph", g) for g in NAMES] + [("rmgraph", "none")]
     return ks
 
 
@@ -237,14 +240,14 @@ def obligations(tier, seed):
             obs.append(dict(oid="ds/%s/%s%s" % ("union" if union else "plain", "-".join(_name(o) for o in ops), "/early" if early else ""),
                             family="ds",
                             desc={"union": union, "ops": [list(o) for o in ops], "early_views": early,
-                                  "qbits": QBITS if len(ops) < 3 else ["000", "111"]},
+                                  "qbits": QBITS if len(ops) < 3 else ["000", "010", "101", "111"]},
                             sig=_sig(3 * (_nsym(ops) + 1)), budget=200 if len(ops) < 3 else 500))
     return obs
 
 
 def bounds(tier):
     return {"ds": "Dataset over Memory, default_union on/off; graph names default/<urn:g1>/_:b1 (+ an unknown name in reads); "
-                  "every single op (23 kinds), k=2 starting with an add/graph (%s), k=3 seeded sample (%s); probe under 3 pattern shapes"
+                  "every single op (24 kinds), k=2 starting with an add/graph (%s), k=3 seeded sample (%s); probe under all 8 pattern shapes (4 for k=3)"
                   % ("60 sampled" if tier == "quick" else "all 184", "16" if tier == "quick" else "200"),
             "outside": "ConjunctiveGraph with a custom default identifier, quoted graphs, stores other than Memory, k>3"}
 
